@@ -986,4 +986,137 @@ theorem dump_refusal_iff (s : Sys) (props : List (String × List Nat)) (u : Unit
 example : isOk (writeDump ({ exSys with props := [⟨"atom_id", true, 1, [[5], [5]]⟩] }) exProps exUnits (.fixed 3) 0) = false := by
   decide +kernel
 
+/-! ## statement audit: non-vacuity of the theorems that had no example discharging their hypotheses jointly -/
+
+section AuditExamples
+
+/-- the `Atoms` columns of atom_style `atomic`, computed from the regenerated tables. -/
+theorem atomCols_atomic : atomCols "atomic" = some exCols := by
+  unfold atomCols styleCols
+  simp only [styleWords_atomic]
+  decide +kernel
+
+-- `dump_parse_write`, `dump_timestep_line`, `dump_call_end_to_end`: the name hypotheses for the columns of `exProps`
+-- (the `isOk` examples above show the call succeeds; these are the other two hypotheses).
+example : NamesOk (exProps.map fun p => dumpCol p.1 p.2) ∧ IdNamesOk (exProps.map fun p => dumpCol p.1 p.2) := by
+  have e : (exProps.map fun p => dumpCol p.1 p.2) =
+      [⟨"atom_id", ["id"], .none⟩, ⟨"atype", ["type"], .none⟩, ⟨"pos", ["x", "y", "z"], .kind "length"⟩] := by
+    decide +kernel
+  rw [e]
+  constructor
+  · intro c hc n hn
+    simp only [List.mem_cons, List.not_mem_nil, or_false] at hc
+    rcases hc with rfl | rfl | rfl <;> simp at hn <;> (try rcases hn with rfl | rfl | rfl) <;> decide
+  · intro c hc
+    simp only [List.mem_cons, List.not_mem_nil, or_false] at hc
+    rcases hc with rfl | rfl | rfl <;> simp
+
+-- `data_wellformed`: its third hypothesis (positive length unit) for `exUnits`.
+example : ∀ c, exUnits.factor? "length" = some (some c) → 0 < c := by
+  intro c hc
+  have : exUnits.factor? "length" = some (some 1) := by decide +kernel
+  rw [this] at hc; injection hc with hc; injection hc with hc; subst hc; norm_num
+
+-- `layoutOf_styleCols`, `tilt_line_iff`, `atom_columns_no_property_twice` at atom_style `atomic`.
+example : ∃ L, layoutOf lammpsAtomLayout "atomic" = some L ∧ colsLayout exCols = some L :=
+  layoutOf_styleCols atom_tables_agree "atomic" exCols atomCols_atomic
+example : (exCols.map (·.prop)).Nodup := atom_columns_no_property_twice "atomic" exCols atomCols_atomic
+example (f : Fmt) (p : DataParts) :
+    (∃ l ∈ dataDocOf f "atomic" p, l.getLast? = some (cs!"yz")) ↔ tilted p.hilo :=
+  tilt_line_iff f "atomic" exCols atomCols_atomic p
+
+-- `data_atoms_inside`: the wrapped cell of `exSys` (one atom outside before wrapping) is LAMMPS-normal.
+example : ∀ p ∈ (wrap exSys.box exSys.pbc exSys.pos).pos,
+    C05.insideRel ((boxOfHiLo ((hiLoOf (wrap exSys.box exSys.pbc exSys.pos).box).map (divBy (some 2)))).cartToRel
+      (v3map (divBy (some 2)) p)) :=
+  data_atoms_inside exSys (some 2) (fun c hc => by injection hc with hc; subst hc; norm_num) (by decide +kernel)
+
+-- `dump_scaled_unscale` applied (tilted cell, origin ≠ 0, length unit 10), `dump_scaled_cells`.
+example : (boxOfHiLo ((hiLoOf ⟨⟨⟨4, 0, 0⟩, ⟨2, 4, 0⟩, ⟨0, 1, 4⟩⟩, ⟨1, 0, -1⟩⟩).map (divBy (some 10)))).relToCart
+    ((⟨⟨⟨4, 0, 0⟩, ⟨2, 4, 0⟩, ⟨0, 1, 4⟩⟩, ⟨1, 0, -1⟩⟩ : Box ℚ).cartToRel ⟨3, 2, 1⟩) = v3map (divBy (some 10)) ⟨3, 2, 1⟩ :=
+  dump_scaled_unscale _ (by decide +kernel) (some 10) (fun c hc => by injection hc with hc; subst hc; norm_num) _
+example : propCells exSys exUnits [1, 2] exSys.pos ⟨"spos", ["xs", "ys", "zs"], .scaled⟩ 1 =
+    .ok [.num (exSys.box.cartToRel ⟨9/2, 1, 6⟩).x, .num (exSys.box.cartToRel ⟨9/2, 1, 6⟩).y,
+         .num (exSys.box.cartToRel ⟨9/2, 1, 6⟩).z] :=
+  dump_scaled_cells exSys exUnits [1, 2] exSys.pos "spos" (Or.inl rfl) "xs" "ys" "zs" .scaled 1 ⟨9/2, 1, 6⟩ rfl
+
+-- `lexDoc_renderLines`: a document with an empty line, words, signed numbers (`#` starts a comment for the reader and is excluded by `okTok`).
+example : lexDoc (renderLines [[cs!"2", cs!"atom", cs!"types"], [], [cs!"1", cs!"2", cs!"-0.500", cs!"1.25e-01"]]) =
+    [[cs!"2", cs!"atom", cs!"types"], [], [cs!"1", cs!"2", cs!"-0.500", cs!"1.25e-01"]] :=
+  lexDoc_renderLines _ (by decide)
+
+-- `info_names_used`, `requested_units_in_snippet`: the call they speak about succeeds for `exSys`.
+example : isOk (dumpData exSys "atomic" "metal" exUnits (.fixed 3) (some "a.dat")) = true ∧
+    isOk (dumpDataWith exSys (some "metal") (some "atomic") none (some ⟨"si", "charge", 5⟩) (fun _ => exUnits) (.fixed 3)
+      none) = true := by
+  constructor
+  · unfold dumpData writeData writeDataDoc dataParts atomCols velCols styleCols dataDocOf
+    simp only [styleWords_atomic]
+    decide +kernel
+  · unfold dumpDataWith dumpData writeData writeDataDoc dataParts atomCols velCols styleCols dataDocOf
+    simp only [resolveArgs, Option.getD, styleWords_atomic]
+    decide +kernel
+
+-- hypotheses that are plain side conditions, on non-trivial values
+example :=
+  dump_bbox_lo_lt_hi ⟨0, 4, 0, 8, 0, 2, 3/2, -1/2, 1/4⟩ (by norm_num) (by norm_num)
+example := dump_bbox_corners ⟨0, 4, 0, 8, 0, 2, 3/2, -1/2, 1/4⟩ 1 1 (Or.inr rfl) (Or.inr rfl)
+example := poscar_scale exSys 2 (by norm_num) true
+example := fmtExp_error (-1234567 / 1000) 3 (by norm_num)
+example := expOf_spec (1 / 8) (by norm_num)
+example := index_names_rank2 "g" 2 3 1 2 (by norm_num) (by norm_num)
+example := default_dump_columns ["atype", "pos", "atom_id", "stress"] (by decide)
+
+-- `atom_row`: the `Atoms` line of the second atom of `exSys` with image flags (1, 0, -1), every hypothesis discharged.
+theorem exCols_core : CoreCols exCols :=
+  ⟨⟨_, ⟨[], _, rfl, by simp⟩, rfl⟩, ⟨⟨"atype", ["type"], .none⟩, ⟨[⟨"a_id", ["id"], .none⟩], _, rfl, by decide⟩, rfl⟩,
+   ⟨⟨"pos", ["x", "y", "z"], .kind "length"⟩, ⟨[⟨"a_id", ["id"], .none⟩, ⟨"atype", ["type"], .none⟩], _, rfl, by decide⟩, rfl, rfl⟩⟩
+
+example : ∃ L i t p lf, colsLayout exCols = some L ∧ ([1, 2] : List Int)[1]? = some i ∧ exSys.atype[1]? = some t ∧
+    exSys.pos[1]? = some p ∧ exUnits.factor? "length" = some lf ∧
+    readAtomLine L (([[Cell.int 2], [Cell.int 2], [Cell.num (9/2), Cell.num 1, Cell.num 6]].flatten ++
+        flagToks (some ⟨1, 0, -1⟩)).map (Cell.tok (.fixed 3))) =
+      some { id := i, type := t, pos := v3map (fmtVal (.fixed 3)) (v3map (divBy lf) p), image := ⟨1, 0, -1⟩,
+             fields := [Cell.int 2, Cell.int 2, Cell.num (9/2), Cell.num 1, Cell.num 6].map (Cell.val (.fixed 3)) } := by
+  obtain ⟨L, _, hL⟩ := layoutOf_styleCols atom_tables_agree "atomic" exCols atomCols_atomic
+  obtain ⟨i, t, p, lf, h1, h2, h3, h4, h5⟩ := atom_row exSys exUnits [1, 2] exSys.pos 1 (.fixed 3)
+    (by intro col hcol; simp [exSys] at hcol) exCols L hL (by decide) exCols_core
+    [[Cell.int 2], [Cell.int 2], [Cell.num (9/2), Cell.num 1, Cell.num 6]]
+    (.cons (by decide +kernel) (.cons (by decide +kernel) (.cons (by decide +kernel) .nil))) (some ⟨1, 0, -1⟩)
+  exact ⟨L, i, t, p, lf, hL, h1, h2, h3, h4, h5⟩
+
+/-- `exSys` with per-atom velocities. -/
+def exVelSys : Sys := { exSys with props := [⟨"velocity", false, 3, [[1, 2, 3], [-4, 5/2, 0]]⟩] }
+def exVelCols : List ColSpec := [⟨"a_id", ["id"], .none⟩, ⟨"velocity", ["vx", "vy", "vz"], .kind "velocity"⟩]
+theorem velCols_atomic : velCols "atomic" = some exVelCols := by
+  unfold velCols styleCols
+  simp only [styleWords_atomic]
+  decide +kernel
+
+example : (exVelCols.map (·.prop)).Nodup := vel_columns_no_property_twice "atomic" exVelCols velCols_atomic
+
+-- `vel_row`: second atom of `exVelSys`, velocity unit 1/2 (so the cells are the stored values times two).
+example : ∃ VL i, colsLayout exVelCols = some VL ∧ ([1, 2] : List Int)[1]? = some i ∧
+    readVelLine VL ([[Cell.int 2], [Cell.num (-8), Cell.num 5, Cell.num 0]].flatten.map (Cell.tok (.fixed 3))) =
+      some { id := i, fields := [Cell.int 2, Cell.num (-8), Cell.num 5, Cell.num 0].map (Cell.val (.fixed 3)) } := by
+  obtain ⟨VL, _, hL⟩ := layoutOf_styleCols vel_tables_agree "atomic" exVelCols velCols_atomic
+  obtain ⟨i, h1, h2⟩ := vel_row exVelSys [("length", some 1), ("velocity", some (1/2))] [1, 2] exVelSys.pos 1 (.fixed 3)
+    (by intro col hcol; simp [exVelSys] at hcol; subst hcol; decide) exVelCols VL hL (by decide) ⟨_, _, rfl, rfl⟩
+    [[Cell.int 2], [Cell.num (-8), Cell.num 5, Cell.num 0]]
+    (.cons (by decide +kernel) (.cons (by decide +kernel) .nil))
+  exact ⟨VL, i, hL, h1, h2⟩
+
+-- `readDataFile_dataDoc`: a two-atom document with a `Velocities` section, all four hypotheses.
+example : readDataFile (renderLines (dataDocOf (.fixed 3) "atomic"
+      ⟨2, 2, ⟨-1, 3, 0, 3, 0, 5, 1, 0, 0⟩, [[.int 1, .int 1, .num 0, .num 0, .num 0], [.int 2, .int 2, .num (1/2), .num 1, .num 6]],
+        some [[.int 1, .num 1, .num 2, .num 3], [.int 2, .num (-4), .num (5/2), .num 0]]⟩)) =
+    some { natoms := 2, ntypes := 2, hilo := (⟨-1, 3, 0, 3, 0, 5, 1, 0, 0⟩ : HiLo).map (fmtVal (.fixed 3)),
+           styleHint := (styleWords "atomic").map strTok,
+           atoms := rowsDoc (.fixed 3) [[.int 1, .int 1, .num 0, .num 0, .num 0], [.int 2, .int 2, .num (1/2), .num 1, .num 6]],
+           velocities := some (rowsDoc (.fixed 3) [[.int 1, .num 1, .num 2, .num 3], [.int 2, .num (-4), .num (5/2), .num 0]]) } :=
+  readDataFile_dataDoc (.fixed 3) "atomic" _ (by intro w hw; rw [styleWords_atomic] at hw; simp at hw; subst hw; decide)
+    rfl (by decide) (by intro vr h; cases h; exact ⟨rfl, by decide⟩)
+
+end AuditExamples
+
 end Atomman.C07
